@@ -123,6 +123,12 @@ reg('C11', 'exhaustive line × caret enumeration + Hypothesis lines (consistency
     'attributes) and before 6 right contexts or with the caret before their auto-closed tail, and extract must return exactly the embedded abbreviation.',
     'Payloads keep brackets balanced as the backward scanner requires; the abbreviation is first confirmed to expand (723 of ~9000 generated ones are skipped, counted in evidence).')
 
+reg('C08', 'history-based testing: generated call histories (Hypothesis lists of steps = stateful model) + exhaustive ordered pairs; differential against a freshly imported interpreter state, snapshot invariants, instance/container counting',
+    'Histories of 3–25 expand calls over caller-owned config dicts, persistent Config objects and shared cache dicts — succeeding and failing (parser errors, user snippets that do not parse), BEM, wrap text, stylesheet calls with differing '
+    'units/snippet tables, and edits of the caller\'s own dict between calls — are executed step by step; every result is compared with the result of the same call in a freshly imported emmet (modules purged from sys.modules), every '
+    'caller-owned dict with its pristine recipe after every step, and after the history the live emmet objects and module-level/default-argument container sizes with their state before it. All ordered pairs of 42 markup and 50 stylesheet steps are enumerated.',
+    'Fresh state = re-import of the package in the same process (module-level state, defaults, caches new); leak detection sees emmet-defined instances and containers, not interned strings; lorem is excluded.')
+
 NOT_APPLICABLE = [
 ]
 
